@@ -1546,6 +1546,10 @@ class BaseSpaceImpl(*_base_space_impl_base):
         self.del_all_itemspaces()
         for cells in self.cells.values():
             cells.clear_all_values(clear_input=True)
+            if not cells.is_cached:
+                # An uncached cells has no values of its own, but values of
+                # cached cells calculated through it must be cleared
+                self.model.clear_obj(cells)
             cells.on_delete()
         for ref in self.own_refs.values():
             # Clear the values calculated by reading the references
